@@ -9,26 +9,28 @@ def n_of(c, quick, thorough):
 
 
 def c03(tier=None):
-    c = Check("C03", ["Wasp.Properties.C03", "Wasp.Properties.C06", "Wasp.Properties.C04"], tier)
+    c = Check("C03", ["Wasp.Properties.C03", "Wasp.Properties.C06", "Wasp.Properties.C04", "Wasp.Properties.Facts.C03"], tier)
     c.build()
     samples = []
     scs = [gen_retransmit(c.rng, c.rng.choice([1, 1, 2])) for _ in range(n_of(c, 14, 200))]
     run_scenarios(c, "retransmission-scripts", scs, samples)
+    from checks import writerlib
+    writerlib.add_pool_suites(c, samples)
     c.assumptions += ["acknowledgement deadlines are driven by synthetic sweeps (ack.Queue.Expire with a time past every armed deadline)"]
     return c.finish(samples=samples, rule="case = one script of deliveries left unacknowledged, sweeps and client answers (right ack, wrong type, wrong id, silence, disconnect) over 1-3 subscribers")
 
 
 def c05(tier=None):
-    c = Check("C05", ["Wasp.Properties.C05", "Wasp.Properties.C04"], tier)
+    c = Check("C05", ["Wasp.Properties.C05", "Wasp.Properties.C04", "Wasp.Properties.Facts.C05"], tier)
     c.build()
     samples = []
-    scs = [gen_faults(c.rng, c.rng.choice([1, 2, 3])) for _ in range(n_of(c, 14, 200))]
+    scs = [gen_faults(c.rng, c.rng.choice([1, 2, 3, 3])) for _ in range(n_of(c, 24, 300))]
     run_scenarios(c, "publish-under-write-failures", scs, samples)
     return c.finish(samples=samples, rule="case = one placement of subscribers over 1-3 nodes with 3-8 publishes (QoS 0/1/2, repeated PUBREL), each under a fresh pattern of local-log and remote-node write failures")
 
 
 def c14(tier=None):
-    c = Check("C14", ["Wasp.Properties.C14"], tier)
+    c = Check("C14", ["Wasp.Properties.C14", "Wasp.Properties.Facts.C14"], tier)
     c.build()
     samples = []
     scs = [gen_faults(c.rng, c.rng.choice([2, 3, 3])) for _ in range(n_of(c, 14, 200))]
@@ -39,7 +41,7 @@ def c14(tier=None):
 
 
 def c11(tier=None):
-    c = Check("C11", ["Wasp.Properties.C11", "Wasp.Properties.C09", "Wasp.Properties.C08"], tier)
+    c = Check("C11", ["Wasp.Properties.C11", "Wasp.Properties.C09", "Wasp.Properties.C08", "Wasp.Properties.Facts.C11"], tier)
     c.build()
     samples = []
     scs = [gen_lifecycle(c.rng, c.rng.choice([1, 2, 3]), 1, takeover=0.15) for _ in range(n_of(c, 12, 160))]
@@ -51,7 +53,7 @@ def c11(tier=None):
 
 
 def c12(tier=None):
-    c = Check("C12", ["Wasp.Properties.C12"], tier)
+    c = Check("C12", ["Wasp.Properties.C12", "Wasp.Properties.Facts.C12"], tier)
     c.build()
     samples = []
     scs = [gen_lifecycle(c.rng, c.rng.choice([1, 2, 2]), 1, takeover=0.6) for _ in range(n_of(c, 12, 160))]
@@ -62,7 +64,7 @@ def c12(tier=None):
 
 
 def c13(tier=None):
-    c = Check("C13", ["Wasp.Properties.C13"], tier)
+    c = Check("C13", ["Wasp.Properties.C13", "Wasp.Properties.Facts.C13"], tier)
     c.build()
     samples = []
     scs = [gen_converged(c.rng, c.rng.choice([1, 2, 3]), 1, c.rng.choice([8, 12]), {"end": 5, "connect": 4, "sub": 4, "pub": 2}) for _ in range(n_of(c, 12, 160))]
@@ -72,7 +74,7 @@ def c13(tier=None):
 
 
 def c17(tier=None):
-    c = Check("C17", ["Wasp.Properties.C17", "Wasp.Proofs.Generated"], tier)
+    c = Check("C17", ["Wasp.Properties.C17", "Wasp.Proofs.Generated", "Wasp.Properties.Facts.C17"], tier)
     c.build()
     samples = []
     scs = [gen_converged(c.rng, c.rng.choice([1, 2]), c.rng.choice([2, 3]), c.rng.choice([12, 18]), {"pub": 8, "sub": 5, "end": 2}) for _ in range(n_of(c, 10, 150))]
@@ -83,10 +85,13 @@ def c17(tier=None):
 
 
 def c02(tier=None):
-    c = Check("C02", ["Wasp.Properties.C02", "Wasp.Properties.C15"], tier)
+    c = Check("C02", ["Wasp.Properties.C02", "Wasp.Properties.C15", "Wasp.Properties.Facts.C02"], tier)
     c.build()
     samples = []
     scs = [gen_converged(c.rng, 1, 1, c.rng.choice([10, 14]), {"pub": 10, "sub": 3, "unsub": 0.5, "end": 0.5}) for _ in range(n_of(c, 8, 100))]
     run_scenarios(c, "acked-publish-delivered", scs, samples)
+    # acknowledged publishes must reach subscribers whose earlier QoS 1/2 exchanges are slow, time out and are resumed
+    scs = [gen_retransmit(c.rng, 1) for _ in range(n_of(c, 8, 100))]
+    run_scenarios(c, "acked-publish-delivered-under-timeouts", scs, samples)
     brokerlib.add_reallog_suites(c, samples)
     return c.finish(samples=samples, rule="case = one publish history (QoS mix, 1-3 publishers and subscribers); the real-log suite crosses the segment (500) and truncation (2000) boundaries and starts with the first message a node ever stores")
